@@ -64,6 +64,78 @@ def reinjects(prog: Program, C: ClassInfo, fi: FuncInfo, attr: str, depth=0) -> 
     return bool(through) and fa.cfg.must_pass(through)
 
 
+def set_rng_propagation(prog: Program, rep: Report, own: Ownership, fwd: Forwarding, clause: str):
+    """G3 over the whole KDTransform family (shared by C07, C08 and C09: a seed injected at the top of a composition -
+    by the user, by a seeded wrapper or by the worker-init hook - must reach every member generator)."""
+    needs = own.needs("rng")
+    family = own.family
+    rep.rule("G3.set_rng", "every class of the KDTransform family forwards set_rng(<received generator>) on every "
+             "normal-return path to each owned member that (transitively) holds a generator; isinstance guards must "
+             "admit every class that needs the hook; any further condition on the forwarding call counts as 'may not forward'")
+    n_owner = 0
+    stochastic = [c for c in family if needs[c.qualname]]
+    for C in family:
+        rep.analysed_add("classes", C.qualname)
+        members = own.members(C)
+        todo = {m: ts for m, ts in members.items() if any(own.type_needs(t, needs) for t in ts)}
+        if not todo:
+            continue
+        n_owner += 1
+        fi = C.lookup("set_rng")
+        for m, ts in sorted(todo.items(), key=lambda kv: str(kv[0])):
+            needed = own.needed_classes(ts, needs)
+            ok, why = fwd.check(C, fi, m, {"set_rng"}, needed, arg_ok=passes_received_arg)
+            o = rep.decide(ok, "G3.set_rng", C.module, f"member:{m}", why, why, line=C.node.lineno, clause=clause)
+            o.func = f"{C.name}.set_rng"
+            if fi is not None and fi.cls is not C:
+                o.detail += f" [resolved to {fi.cls.name}.set_rng]"
+    rep.floor("classes of the KDTransform family", len(family), 75)
+    rep.floor("classes holding a generator (transitively)", len(stochastic), 35)
+    rep.floor("classes owning members that need set_rng", n_owner, 15)
+
+
+def member_stability(prog: Program, rep: Report, own: Ownership, clause: str):
+    """Owned stochastic members are created in the constructor only."""
+    rep.rule("G3.member-stable", "an attribute that holds an owned transform or a generator is bound to a freshly constructed "
+             "object only in __init__ (set_rng stores the received generator): replacing a member later - e.g. when the "
+             "strength is rescaled - silently drops the generator that was injected into the old object")
+    needs = own.needs("rng")
+    n = 0
+    for C in own.family:
+        at = own.types.of(C)
+        member_attrs = {m.attr for m in own.members(C)} | {a for a, ts in at.items() if ("gen",) in ts}
+        if not member_attrs:
+            continue
+        for fi in C.methods.values():
+            if fi.name == "__init__" or fi.is_static:
+                continue
+            fa = fa_of(prog, fi)
+            for node, var, val in fa.stores(f"{fa.self_name}."):
+                attr = var.split(".", 1)[1]
+                if attr not in member_attrs or val is None:
+                    continue
+                n += 1
+                t = fa.sym.term(val, node)
+                fresh = None
+                if t[0] == "call" and t[1][0] == "global":
+                    r = prog.resolve_expr(fi.module, val.func) if isinstance(val, ast.Call) else None
+                    if r and r[0] == "class" and own.in_family(r[1]):
+                        fresh = f"a new {r[1].name}"
+                    elif t[1][1].endswith(("default_rng", "get_rng_from_global", "RandomState")):
+                        fresh = "a new generator"
+                    elif r and r[0] == "func" and r[1].name == "object_to_transform":
+                        fresh = "a newly built transform"
+                ok = fresh is None
+                if fi.name in ("worker_init_fn", "_worker_init_fn") and fresh == "a new generator":
+                    ok = True
+                o = rep.decide(ok, "G3.member-stable", fi, f"store:self.{attr}",
+                               f"self.{attr} is re-bound to an existing value", f"{fi.qualname} binds self.{attr} to "
+                               f"{fresh}: a generator injected earlier (set_rng / seeded wrapper / worker hook) is lost and "
+                               f"the new object draws from a stream seeded by the global NumPy RNG", line=fa.line(node),
+                               clause=clause)
+    rep.extra["member_stores_outside_init"] = n
+
+
 def run(prog: Program, rep: Report, tier: str):
     own = Ownership(prog, "KDTransform")
     fwd = Forwarding(prog, own)
@@ -85,29 +157,8 @@ def run(prog: Program, rep: Report, tier: str):
                                 f"other module) and excluded from class-universal rules")
 
     # ---- clause 1: propagation of set_rng ------------------------------------------------------------
-    rep.rule("G3.set_rng", "every class of the KDTransform family forwards set_rng(<received generator>) on every "
-             "normal-return path to each owned member that (transitively) holds a generator; isinstance guards must "
-             "admit every class that needs the hook")
-    n_owner = 0
-    stochastic = [c for c in family if needs[c.qualname]]
-    for C in family:
-        rep.analysed_add("classes", C.qualname)
-        members = own.members(C)
-        todo = {m: ts for m, ts in members.items() if any(own.type_needs(t, needs) for t in ts)}
-        if not todo:
-            continue
-        n_owner += 1
-        fi = C.lookup("set_rng")
-        for m, ts in sorted(todo.items(), key=lambda kv: str(kv[0])):
-            needed = own.needed_classes(ts, needs)
-            ok, why = fwd.check(C, fi, m, {"set_rng"}, needed, arg_ok=passes_received_arg)
-            o = rep.decide(ok, "G3.set_rng", C.module, f"member:{m}", why, why, line=C.node.lineno, clause="C07.1")
-            o.func = f"{C.name}.set_rng"
-            if fi is not None and fi.cls is not C:
-                o.detail += f" [resolved to {fi.cls.name}.set_rng]"
-    rep.floor("classes of the KDTransform family", len(family), 75)
-    rep.floor("classes holding a generator (transitively)", len(stochastic), 35)
-    rep.floor("classes owning members that need set_rng", n_owner, 15)
+    set_rng_propagation(prog, rep, own, fwd, clause="C07.1")
+    member_stability(prog, rep, own, clause="C07.1")
 
     # ---- clause 2: leaves re-inject ------------------------------------------------------------------
     rep.rule("G3.reinject", "the set_rng a class resolves to stores the received generator into every generator "
